@@ -352,39 +352,34 @@ def tangent_kernel(fn: ast.FunctionDef) -> dict:
 
 
 def _diff_coef(node: ast.AST, arg: str) -> int:
-    """`c*np.diff(arg, ...)` (or bare np.diff) anywhere inside `node` -> the literal c (must be ±1)"""
-    class V(ast.NodeVisitor):
-        found = None
-
-        def visit_BinOp(self, n):
-            if isinstance(n.op, ast.Mult):
-                for a, b in ((n.left, n.right), (n.right, n.left)):
-                    if _is_diff(b, arg):
-                        try:
-                            self.found = _num(a)
-                        except Unavailable:
-                            pass
-                        return
-            self.generic_visit(n)
-
-        def visit_Call(self, n):
-            if _is_diff(n, arg) and self.found is None:
-                self.found = Fraction(1)
-                return
-            self.generic_visit(n)
-
-        def visit_UnaryOp(self, n):
-            if isinstance(n.op, ast.USub) and _is_diff(n.operand, arg):
-                self.found = Fraction(-1)
-                return
-            self.generic_visit(n)
-    v = V()
-    v.visit(node)
-    if v.found is None:
-        raise Unavailable(f"np.diff({arg}) not found")
-    if v.found not in (1, -1):
-        raise Unavailable(f"literal {v.found} in front of np.diff({arg}) is not ±1")
-    return int(v.found)
+    """the numeric literal multiplying `np.diff(arg, ...)` inside `node`: product of the literal
+    factors (and unary minus signs) of the multiplicative chain around the call; must be ±1"""
+    parent: dict[ast.AST, ast.AST] = {}
+    for n in ast.walk(node):
+        for c in ast.iter_child_nodes(n):
+            parent[c] = n
+    calls = [n for n in ast.walk(node) if _is_diff(n, arg)]
+    if len(calls) != 1:
+        raise Unavailable(f"np.diff({arg}) found {len(calls)} times")
+    coef = Fraction(1)
+    cur: ast.AST = calls[0]
+    while cur in parent:
+        p = parent[cur]
+        if isinstance(p, ast.BinOp) and isinstance(p.op, ast.Mult):
+            other = p.right if p.left is cur else p.left
+            for f in _factors(other):
+                try:
+                    coef *= _num(f)
+                except Unavailable:
+                    pass                      # a non-literal factor (force constants, tau)
+        elif isinstance(p, ast.UnaryOp) and isinstance(p.op, ast.USub):
+            coef = -coef
+        else:
+            break
+        cur = p
+    if coef not in (1, -1):
+        raise Unavailable(f"literal {coef} in front of np.diff({arg}) is not ±1")
+    return int(coef)
 
 
 def _is_diff(n: ast.AST, arg: str) -> bool:
